@@ -64,13 +64,18 @@ theorem g_satisfies_refines (grow : Nat → Nat → Nat) (e : Bytes) (L : List B
 theorem g_satisfies_never_panics (grow : Nat → Nat → Nat) (e : Bytes) (L : List Bytes) : satisfiesG grow e L ≠ .panic := by
   rw [g_satisfies_refines]; intro hc; cases hc
 
-/-- `ExtractLicenses`, Go-shaped end to end, equals the model's `extract` -/
-theorem g_extract_refines (e : Bytes) : extractFullG e = .ok (extract e) := by
+/-- `ExtractLicenses`, Go-shaped end to end (heap-level expansion included), equals the model's `extract` -/
+theorem g_extract_refines (grow : Nat → Nat → Nat) (e : Bytes) : extractFullG grow e = .ok (extract e) := by
   unfold extractFullG extract
   rw [g_parse_refines e]; simp only [bind_ok]
   cases parse e with
   | error x => rfl
-  | ok n => simp only [extractG_ok, bind_ok]
+  | ok n =>
+    simp only [g_expand_refines, bind_ok]
+    rw [mapM'_ok renderG render _ (fun x hx => renderG_leaf x (by
+      obtain ⟨part, hp, hxp⟩ := List.mem_flatten.mp hx
+      exact expand_nodes_are_leaves n part hp x hxp))]
+    rfl
 
 theorem g_invalid_refines (ls : List Bytes) : invalidG ls = .ok (ls.filter (fun s => !valid s)) := by
   induction ls with
@@ -86,7 +91,7 @@ theorem g_validate_refines (ls : List Bytes) : validateG ls = .ok (validate ls) 
 
 /-- **C03 on layer G, all three entry points**: none of them panics, on any argument -/
 theorem g_api_never_panics (grow : Nat → Nat → Nat) (e : Bytes) (L : List Bytes) :
-    satisfiesG grow e L ≠ .panic ∧ extractFullG e ≠ .panic ∧ validateG L ≠ .panic := by
+    satisfiesG grow e L ≠ .panic ∧ extractFullG grow e ≠ .panic ∧ validateG L ≠ .panic := by
   refine ⟨g_satisfies_never_panics grow e L, ?_, ?_⟩
   · rw [g_extract_refines]; intro hc; cases hc
   · rw [g_validate_refines]; intro hc; cases hc
